@@ -310,11 +310,11 @@ def run_expose_layout(case, seed, R):
 
 HIST_SHAPE = (4, 6)
 HIST_ATTRS = {      # every public attribute expose() reads -> its value alphabet
-    'conversion_gain': [2.0, 8.0, 0.5],
+    'conversion_gain': [2.0, 8.0, 0.5, 1.0],      # exactly 1: the value at which a scaling step may be skipped
     'bits': [12, 8, 16],
     'bias': [10, 0],
     'fwc': [50000.0, 1000.0],
-    'exposure_time': [2.0, 0.25],
+    'exposure_time': [2.0, 0.25, 1.0],            # exactly 1: "image * t" may be skipped and the caller's array used as the work array
     'dark_current': [0.0, 2.0],
     'read_noise': [3.0, 0.0],
     'prnu': [None, 'ramp'],
